@@ -165,9 +165,28 @@ CHECKS = {
 }
 
 
+E2E = (" End to end: the clauses are also stated directly about what ampycloud.run returns (theorems Cxx_run_*), under the "
+       "property's own quantifier only (structure Accepted: hit heights in [0,1e5) ft, parameters inside their documented "
+       "meaning, third-party answers of the documented shape).")
+MON = (" The run-time monitor (the decidable Lean spec predicate evaluated on the implementation's output) is proved to raise "
+       "nothing on the model's own output (Cxx_monitor_sound*), so it demands nothing beyond the property as modelled.")
+EXTRA = {
+    'C01': E2E + MON, 'C02': E2E + MON, 'C03': E2E + MON, 'C04': E2E + MON,
+    'C05': MON,
+    'C06': (" End to end: C06_run_groups_separated (groups table of every run) and C06_run_split_layers_separated (layers of a "
+            "group split into as many layers as the selected mixture distinguishes, no ceilometer excluded)." + MON +
+            " That proof obligation exposed and removed a false alarm of the monitor as first written (guarded by the reported "
+            "ncomp, which is the count after re-merging)."),
+    'C07': MON,
+    'C08': " API level: C08_api_total (any argument: AmpycloudError from the consistency check, or a chunk) and C08_metar_total.",
+    'C17': MON, 'C18': MON,
+}
+
+
 def main():
     checks = []
     for pid, c in sorted(CHECKS.items()):
+        c = dict(c, text=c['text'] + EXTRA.get(pid, ''))
         checks.append({
             'property_id': pid,
             'quick_cmd': f'./check {pid} --tier quick',
